@@ -104,6 +104,17 @@ def contexts():
     c["typedef-range-bound"] = dict(mk=lambda e: dict(gdecl_post="typedef int[0, %s] T; T z;" % e), allowed=[NC], ctc=True)
     c["inst-arg"] = dict(mk=lambda e: dict(params="const int n", system="Q = P(%s);\nsystem Q;" % e),
                          allowed=[SE % "Argument", "$Incompatible_argument"], ctc=True)
+    # every argument of an instantiation is checked, whatever its position and however many parameters the new instance declares itself
+    # (instance.parameters = own parameters followed by the template's: the arguments belong to the latter)
+    for name, params, system in (
+            ("2nd", "const int n, const int m", "Q = P(1, %s);\nsystem Q;"),
+            ("partial-last", "const int n, const int m", "Q(const int[0,1] k) = P(k, %s);\nsystem Q;"),
+            ("partial-first", "const int n, const int m", "Q(const int[0,1] k) = P(%s, k);\nsystem Q;"),
+            ("partial-2-middle", "const int n, const int m, const int o", "Q(const int[0,1] k, const int[0,1] l) = P(k, %s, l);\nsystem Q;"),
+            ("partial-2-last", "const int n, const int m, const int o", "Q(const int[0,1] k, const int[0,1] l) = P(k, l, %s);\nsystem Q;"),
+            ("partial-of-partial", "const int n, const int m", "R(const int[0,1] j, const int w) = P(j, w);\nQ(const int[0,1] k) = R(k, %s);\nsystem Q;")):
+        mk = (lambda params, system: (lambda e: dict(params=params, system=system % e)))(params, system)
+        c["inst-arg-" + name] = dict(mk=mk, allowed=[SE % "Argument", "$Incompatible_argument"], ctc=True, sampled=True)
     c["quantified-body-guard"] = dict(mk=lambda e: dict(guard="forall (qi : int[0,1]) %s == 1" % e),
                                       allowed=[SE % "Expression", SE % "Guard"], ctc=False)
     c["quantified-body-exists"] = dict(mk=lambda e: dict(guard="exists (qi : int[0,1]) %s == 1" % e),
